@@ -190,6 +190,74 @@ STREAM_KINDS = (
 )
 
 
+# Raw streams whose read(n) legitimately returns FEWER than n bytes before the end of the stream (io.RawIOBase
+# semantics: what socket.makefile('rb', buffering=0), an unbuffered pipe or a wrapper that hands out at most
+# `cap` bytes per call do).  Deterministic: the cap of the k-th capped read is caps[k % len(caps)].
+# "short_<cap>": every read is capped (usable with headers that are read in pieces of at most cap bytes: the
+# reader under test asks for 1024 bytes and then for the rest of the header in ONE read each and does not
+# retry those, which no property covers).  "short_after_header_<...>": reads that start inside the NIST header
+# (its declared size; 0 when the data has none) are served in full, every later one is capped.
+SHORT_READ_VARYING = (5000, 1, 16383, 1024, 7, 4096, 16384, 3)
+SHORT_READ_KINDS = (
+    "short_1024", "short_4096", "short_5000", "short_16383",
+    "short_after_header_1", "short_after_header_7", "short_after_header_1024", "short_after_header_varying",
+)
+
+
+def short_read_caps(kind):
+    tail = kind.rsplit("_", 1)[1]
+    return SHORT_READ_VARYING if tail == "varying" else (int(tail),)
+
+
+def nist_header_size(data):
+    """declared header size of SPHERE bytes, 0 if there is none"""
+    if data[:8] != b"NIST_1A\n":
+        return 0
+    try:
+        return max(0, int(data[8:16].split(b"\n")[0]))
+    except ValueError:
+        return 0
+
+
+def short_read_stream(data, caps, full_prefix=0):
+    """-> an io.RawIOBase over `data`: a read that starts at or after byte `full_prefix` returns at most
+    caps[k % len(caps)] bytes (k counts these reads), never 0 before the end of the data"""
+    import io
+
+    caps = tuple(int(c) for c in caps)
+    if not caps or min(caps) < 1:
+        raise ValueError("caps must be positive")
+
+    class ShortReads(io.RawIOBase):
+        def __init__(self):
+            io.RawIOBase.__init__(self)
+            self._data, self._pos, self._k = bytes(data), 0, 0
+            self.calls = []          # (requested, returned) per read
+
+        def readable(self):
+            return True
+
+        def readinto(self, b):
+            n = len(b)
+            if self._pos >= full_prefix:
+                n = min(n, caps[self._k % len(caps)])
+                self._k += 1
+            chunk = self._data[self._pos:self._pos + n]
+            b[:len(chunk)] = chunk
+            self._pos += len(chunk)
+            self.calls.append((len(b), len(chunk)))
+            return len(chunk)
+
+    return ShortReads()
+
+
+def open_short_read_stream(kind, data):
+    if kind not in SHORT_READ_KINDS:
+        raise ValueError(kind)
+    prefix = nist_header_size(data) if kind.startswith("short_after_header_") else 0
+    return short_read_stream(data, short_read_caps(kind), prefix)
+
+
 class _ReadOnly:
     def __init__(self, data):
         import io
@@ -282,6 +350,8 @@ def open_stream(kind, data, tmpdir):
                 f = io.BufferedReader(io.BytesIO(data))
             elif kind == "read_only_object":
                 f = _ReadOnly(data)
+            elif kind in SHORT_READ_KINDS:
+                f = stack.enter_context(open_short_read_stream(kind, data))
             elif kind.startswith("name_"):
                 import pathlib
 
@@ -308,6 +378,20 @@ def name_class(f):
 
 def selftest():
     import io
+
+    blob = bytes(range(256)) * 200
+    for kind in SHORT_READ_KINDS:
+        f = open_short_read_stream(kind, b"NIST_1A\n   1024\n" + blob)
+        got, sizes = b"", []
+        while True:
+            c = f.read(16384)
+            if not c:
+                break
+            got += c
+            sizes.append(len(c))
+        assert got == b"NIST_1A\n   1024\n" + blob, kind
+        assert any(x < 16384 for x in sizes[:-1]), kind      # short before the end
+        assert max(sizes[1:]) <= max(short_read_caps(kind)), kind
 
     x = np.array([[0, 1], [-2, 258], [32767, -32768]])
     b = write_bytes("pcm01", x)
